@@ -55,12 +55,25 @@ ForestOK(g, st, comp, nord) ==      \* comp: the nodes that must be spanned (all
     /\ MinByCycleProperty(gc, L)
     /\ (Len(gc.E) <= 12 => total = MinForestWeight(gc))     \* small graphs: also against ALL spanning forests
 
+\* a large input that IS a tree (marked by the harness, which generates only stars and paths at that size): the
+\* unique spanning tree is the whole edge set, so the cheap rule is: all nodes first and in order, exactly the n - 1
+\* edges of g as a multiset (checked through inclusion + count + total weight)
+TreeOK(g, st, nord) ==
+    LET L == StreamEdges(st) IN
+    /\ st.nodes_first /\ st.nodes = nord
+    /\ \A j \in DOMAIN st.edges : st.edges[j][1] < Len(st.nodes) /\ st.edges[j][2] < Len(st.nodes)
+    /\ Len(L) = g.n - 1 /\ Len(g.E) = g.n - 1
+    /\ BagIncluded(g, L)
+    /\ SumW(DOMAIN L, LAMBDA j : L[j][3]) = SumW(EIdx(g), LAMBDA j : Wt(g, j))
+
 Bad(r) ==
     LET g == [n |-> r.n, dir |-> r.dir, E |-> r.E]
         chk(f, P(_)) == IF Has(r, f) /\ ~(Ok(r[f]) /\ P(r[f][2])) THEN {f} ELSE {}
     IN
-    chk("mst", LAMBDA v : ForestOK(g, v, Nodes(g), r.nord[2]))
-    \cup chk("prim", LAMBDA v : ForestOK(g, v, WComp(UG(g), r.nord[2][1]), r.nord[2]))
+    IF Has(r, "tree")
+    THEN chk("mst", LAMBDA v : TreeOK(g, v, r.nord[2])) \cup chk("prim", LAMBDA v : TreeOK(g, v, r.nord[2]))
+    ELSE chk("mst", LAMBDA v : ForestOK(g, v, Nodes(g), r.nord[2]))
+         \cup chk("prim", LAMBDA v : ForestOK(g, v, WComp(UG(g), r.nord[2][1]), r.nord[2]))
 
 Init == i \in 1 .. Len(Recs) /\ verdict = "pending"
 Next == /\ verdict = "pending"
